@@ -131,6 +131,13 @@ Theorem C11_zero_addon_cumulative : forall a : addon_in,
 Proof. exact zero_addon_cumulative. Qed.
 Print Assumptions C11_zero_addon_cumulative.
 
+(* ... and the same payback period (the code's payback loop, Python's cum[-1] wrap-around included) *)
+Theorem C11_zero_addon_payback : forall a : addon_in,
+  a_capex a == 0 -> a_opex a == 0 -> a_egain a == 0 -> a_hgain a == 0 -> a_profit a == 0 ->
+  payback (running (addon_project_cashflow a)) == payback (running (base_project_cashflow a)).
+Proof. exact zero_addon_payback. Qed.
+Print Assumptions C11_zero_addon_payback.
+
 (* ---- non-vacuity ---- *)
 Example ex_scale : let c := Verif.Props.C01.ex1 in
   let '(a, b, _) := lcoe_exec c in let '(a3, b3, _) := lcoe_exec (scale_costs 3 c) in a3 == 3 * a /\ b3 == 3 * b /\ 0 < a.
